@@ -43,7 +43,7 @@ def lck3(P, R, L):
             if t.get("local") and t.get("resolved") in P.bodies and not t.get("dyn"):
                 cands.append(t["resolved"])
             elif t.get("dyn") or (t.get("resolved") is None and t.get("callee") in P.trait_impls):
-                cands += [im for im in P.trait_impls.get(t.get("callee"), []) if im in P.bodies]
+                cands += P.dyn_targets(t)
             for g in cands:
                 gb = P.bodies[g]
                 if L.guard_param(gb) is not None:
